@@ -2,7 +2,7 @@
    observation, and the executable statement of the property (oracle) evaluated
    on the implementation's observation.  Depends on Model/Spec only. *)
 From Coq Require Import NArith ZArith List Bool.
-From Dolt Require Import Base.Str C42.Model C42.Spec C42.NbsModel.
+From Dolt Require Import Base.Str C42.Model C42.Spec C42.NbsModel C42.GitModel.
 Import ListNotations.
 Local Open Scope N_scope.
 
@@ -12,7 +12,9 @@ Local Open Scope N_scope.
    (incidental choices: version generator, lock acquisition order). *)
 Inductive input :=
 | IBlob (b : backend) (sch : schedule)                       (* blobstore API case *)
-| INbs (n : nat) (univ : list N) (ops : list (nat * nop)).   (* NBS-on-blobstore case: clients, chunk universe, history *)
+| INbs (n : nat) (univ : list N) (ops : list (nat * nop))    (* NBS-on-blobstore case: clients, chunk universe, history *)
+| IGit (sch : schedule)                                      (* two GitBlobstore clients of one remote, manifest key, linearised *)
+| IStress (b : backend) (sch : schedule).                    (* the writer's CheckAndPut sequence of a reader/writer stress run *)
 
 (* NBS case, per step: result code, caller's Root(), persisted root, a fresh open's Root()
    and the chunks of the universe it Has *)
@@ -20,7 +22,8 @@ Record nobs := { no_res : N; no_croot : N; no_droot : N; no_froot : N; no_fhas :
 
 Inductive obs :=
 | OBlob (l : list res)                                       (* one result per step, same order *)
-| ONbs (bsinmem bslocal local : list nobs).                  (* the same history on the three stores *)
+| ONbs (bsinmem bslocal local : list nobs)                   (* the same history on the three stores *)
+| OStress (writer : list res) (seen : list (N * bytes)).     (* writer results; distinct (version, contents) pairs the readers got *)
 Definition case := (input * obs)%type.
 
 Definition blob_model (b : backend) (sch : schedule) : list res :=
@@ -31,9 +34,28 @@ Definition to_nobs (univ : list N) (o : N * N * mc) : nobs :=
   {| no_res := r; no_croot := croot; no_droot := fst m; no_froot := fst m;
      no_fhas := filter (fun x => mem_n x (snd m)) univ |}.
 
+(* (version, contents) pairs installed by the successful manifest writes of a history *)
+Fixpoint written_pairs (h : list (op * res)) : list (N * bytes) :=
+  match h with
+  | [] => []
+  | (OCap _ d _, RVer f) :: t => (f, d) :: written_pairs t
+  | (OPut k d _, RVer f) :: t => if N.eqb k manifest_key then (f, d) :: written_pairs t else written_pairs t
+  | _ :: t => written_pairs t
+  end.
+
+Definition mem_pair (p : N * bytes) (l : list (N * bytes)) : bool :=
+  existsb (fun q => (fst p =? fst q) && beq_bytes (snd p) (snd q)) l.
+
+(* Get returns the (version, contents) of ONE store state: every pair a reader
+   obtained is a pair some manifest write installed *)
+Definition get_pair_consistent (written seen : list (N * bytes)) : bool :=
+  forallb (fun p => mem_pair p written) seen.
+
 Definition model_obs (i : input) : obs :=
   match i with
   | IBlob b sch => OBlob (blob_model b sch)
+  | IGit sch => OBlob (map snd (git_trace empty_store (map snd sch)))
+  | IStress b sch => OStress (blob_model b sch) (written_pairs (sched_trace b empty_store sch))
   | INbs n univ ops =>
     ONbs (map (to_nobs univ) (nrun_bs InMem n ops)) (map (to_nobs univ) (nrun_bs Local n ops))
          (map (to_nobs univ) (nrun_local n ops))
@@ -65,6 +87,10 @@ Definition obs_eqb (a b : obs) : bool :=
   match a, b with
   | OBlob x, OBlob y => list_eqb res_eqb x y
   | ONbs a1 a2 a3, ONbs b1 b2 b3 => list_eqb nobs_eqb a1 b1 && list_eqb nobs_eqb a2 b2 && list_eqb nobs_eqb a3 b3
+  | OStress w1 p1, OStress w2 p2 =>
+    (* first argument = model: which pairs the readers catch is scheduling; what is compared is
+       the writer's results and that the implementation's pairs are among the model's states *)
+    list_eqb res_eqb w1 w2 && get_pair_consistent p1 p2
   | _, _ => false
   end.
 
@@ -89,9 +115,34 @@ Definition blob_oracle (sch : schedule) (o : list res) : bool :=
   && winners_ok h
   && fresh_trace [] h.
 
+(* git: versions are object ids: a version is never empty, and two writes got the same
+   version iff they wrote the same contents (instead of freshness; A-B-A on contents
+   legitimately brings a version back, so winners are not required to be distinct) *)
+Fixpoint ver_content_ok (l : list (N * bytes)) : bool :=
+  match l with
+  | [] => true
+  | p :: t => negb (fst p =? 0)
+              && forallb (fun q => Bool.eqb (fst p =? fst q) (beq_bytes (snd p) (snd q))) t
+              && ver_content_ok t
+  end.
+
+Definition git_oracle (sch : schedule) (o : list res) : bool :=
+  let ops := map snd sch in
+  let h := combine ops o in
+  Nat.eqb (length o) (length ops) && spec_trace empty_store h && ver_content_ok (written_pairs h).
+
+(* stress: the writer's sequence obeys the CAS specification and every pair a reader
+   got was installed by the writer *)
+Definition stress_oracle (sch : schedule) (w : list res) (seen : list (N * bytes)) : bool :=
+  let ops := map snd sch in
+  let h := combine ops w in
+  Nat.eqb (length w) (length ops) && spec_trace empty_store h && get_pair_consistent (written_pairs h) seen.
+
 Definition oracle (i : input) (o : obs) : bool :=
   match i, o with
   | IBlob _ sch, OBlob l => blob_oracle sch l
+  | IGit sch, OBlob l => git_oracle sch l
+  | IStress _ sch, OStress w seen => stress_oracle sch w seen
   | INbs _ _ ops, ONbs a b c =>
     Nat.eqb (length c) (length ops) && list_eqb nobs_eqb a c && list_eqb nobs_eqb b c
   | _, _ => false
